@@ -2,11 +2,11 @@
 The index tables mirror HostSets / PathSets / TlsOpts of that module."""
 import json, random, re, itertools
 
-HOSTSETS = [[""], ["a.d"], ["*.d"], ["b.a.d"], ["a.d", "b.a.d"], ["*.d", "a.d"], ["d"]]
+HOSTSETS = [[""], ["a.d"], ["*.d"], ["b.a.d"], ["a.d", "b.a.d"], ["*.d", "a.d"], ["d"], ["::1", "[::1]"]]
 PATHSETS = [["/"], ["/api"], ["/apiary"], ["/api/v1"], ["/", "/api"], ["/api", "/api/v1"]]
 TLSOPTS = [dict(tls=False, redirect=True, acme=False), dict(tls=True, redirect=True, acme=False),
            dict(tls=True, redirect=False, acme=False), dict(tls=True, redirect=True, acme=True)]
-REQ_HOSTS = ["a.d", "a.d:8080", "b.a.d", "c.d", "c.b.a.d", "d", "x.y", "localhost", "[::1]:80", "b.a.d:443"]
+REQ_HOSTS = ["a.d", "a.d:8080", "b.a.d", "c.d", "c.b.a.d", "d", "x.y", "localhost", "[::1]:80", "[::1]", "b.a.d:443"]
 REQ_PATHS = ["/", "/api", "/api/", "/apiary", "/api/v1", "/api/v1/x", "/api//x", "//api", "/x", "/apiv1"]
 SNI = ["a.d", "b.a.d", "c.d", "d", "x.y", "c.b.a.d"]
 
